@@ -40,11 +40,13 @@ namespace c16
     if(kind >= 2 && t.flag(1, 5)) for(auto& q : V) { q.t.clear(); q.t.push_back({0.0, {0, 0, 0}}); }
     const int need = 4 + ((kind >= 2 && (p.beta != 0.0 || p.frechet_beta != 0.0)) ? 2 : 0);
     const int cubdeg = need + t.range(0, 1); const std::string cubname = "auto-degree:" + std::to_string(cubdeg);
+    int stag_cell = -1;
+    if(kind >= 2 && t.flag(1, 4)) { stag_cell = stagnation_field(t, rm, V); if(kind == 2 && p.sd_delta == 0.0 && t.flag(3, 4)) { p.sd_delta = 0.5; p.sd_nu = 1.0; c.label("streamdiff:on"); } c.label("conv:stagnation-point"); }
     const bool exact_ok = rm.cells_affine && p.sd_delta == 0.0;
 
     auto mesh = make_feat_mesh<MeshType>(rm); TrafoType trafo(*mesh); SpaceType space(trafo);
     c.desc.set("mesh", rm.json()); c.desc.set("kind", kn[kind]); c.desc.set("dt", TN<DT>::n()); c.desc.set("it", IN<IT>::n()); c.desc.set("coloring", colcls);
-    c.desc.set("params", p.json()); c.desc.set("alpha", (double)alpha); c.desc.set("cubature", cubname); c.desc.set("conv", polys_json(V)); c.desc.set("u", polys_json(U)); c.desc.set("w", polys_json(W));
+    c.desc.set("params", p.json()); c.desc.set("alpha", (double)alpha); c.desc.set("cubature", cubname); c.desc.set("conv", polys_json(V)); c.desc.set("stagnation_cell", stag_cell); c.desc.set("u", polys_json(U)); c.desc.set("w", polys_json(W));
     label_mesh(c, rm); c.label(std::string("kind:") + kn[kind]); c.label(std::string("dt:") + TN<DT>::n()); c.label(std::string("it:") + IN<IT>::n());
     static const char* cn[] = {"coloring:adjacency", "coloring:vector", "coloring:one-per-cell", "coloring:vector+hint"}; c.label(cn[colcls]);
     c.label(exact_ok ? "oracle:exact" : "oracle:routes+identities");
